@@ -429,37 +429,45 @@ func mutations(valid []byte, n int, rng *rand.Rand, tag string) []hostile {
 		out = append(out, hostile{b, tag + "bitflip@" + itoa(i)})
 	}
 	for k := 0; k < n; k++ {
-		b := append([]byte{}, valid...)
-		switch rng.Intn(5) {
-		case 0: // several byte overwrites
-			for j := 0; j < 1+rng.Intn(4); j++ {
-				b[rng.Intn(len(b))] = byte(rng.Intn(256))
-			}
-		case 1: // delete a chunk
-			i := rng.Intn(len(b))
-			l := 1 + rng.Intn(8)
-			if i+l > len(b) {
-				l = len(b) - i
-			}
-			b = append(b[:i], b[i+l:]...)
-		case 2: // insert random bytes
-			i := rng.Intn(len(b) + 1)
-			ins := make([]byte, 1+rng.Intn(6))
-			rng.Read(ins)
-			b = append(b[:i], append(ins, b[i:]...)...)
-		case 3: // splice two halves of the message
-			i, j := rng.Intn(len(b)), rng.Intn(len(b))
-			b = append(append([]byte{}, b[:i]...), b[j:]...)
-		case 4: // corrupt a length / tag byte to a big varint
-			i := rng.Intn(len(b))
-			b[i] |= 0x80
-			if rng.Intn(2) == 0 && i+1 < len(b) {
-				b[i+1] = 0xff
-			}
-		}
-		out = append(out, hostile{b, tag + "mut#" + itoa(k)})
+		out = append(out, hostile{mutate(valid, rng), tag + "mut#" + itoa(k)})
 	}
 	return out
+}
+
+// mutate: one seeded multi-byte mutation of a valid encoding.
+func mutate(valid []byte, rng *rand.Rand) []byte {
+	b := append([]byte{}, valid...)
+	if len(b) == 0 {
+		return b
+	}
+	switch rng.Intn(5) {
+	case 0: // several byte overwrites
+		for j := 0; j < 1+rng.Intn(4); j++ {
+			b[rng.Intn(len(b))] = byte(rng.Intn(256))
+		}
+	case 1: // delete a chunk
+		i := rng.Intn(len(b))
+		l := 1 + rng.Intn(8)
+		if i+l > len(b) {
+			l = len(b) - i
+		}
+		b = append(b[:i], b[i+l:]...)
+	case 2: // insert random bytes
+		i := rng.Intn(len(b) + 1)
+		ins := make([]byte, 1+rng.Intn(6))
+		rng.Read(ins)
+		b = append(b[:i], append(ins, b[i:]...)...)
+	case 3: // splice two parts of the message
+		i, j := rng.Intn(len(b)), rng.Intn(len(b))
+		b = append(append([]byte{}, b[:i]...), b[j:]...)
+	case 4: // corrupt a length / tag byte to a big varint
+		i := rng.Intn(len(b))
+		b[i] |= 0x80
+		if rng.Intn(2) == 0 && i+1 < len(b) {
+			b[i+1] = 0xff
+		}
+	}
+	return b
 }
 
 // randomBytes: n seeded random strings, half of them starting with a plausible tag.
